@@ -187,6 +187,13 @@ def _apply_unit(repo: str, header: str, body_lines: List[str], tpl_name: str) ->
                 rule = d.split(":", 1)[1]
                 p, r = rule.split("==>", 1)
                 sections.append(("sigrw", p.strip(), [r.strip()]))
+            elif d.startswith("rwin:"):
+                # scoped rewrite: `rwin: OUTER (capturing $in) ==> INNER ==> REPL` applies INNER ==> REPL only inside
+                # the text captured as $in by each match of OUTER
+                parts = d.split(":", 1)[1].split("==>")
+                if len(parts) != 3:
+                    raise ExtractError("bad rwin rule in %s/%s: %s" % (tpl_name, uid, d))
+                sections.append(("rwin", parts[0].strip(), [parts[1].strip(), parts[2].strip()]))
             elif d.startswith("rw?:") or d.startswith("rw:"):
                 optional = d.startswith("rw?:")
                 rule = d.split(":", 1)[1]
@@ -318,6 +325,21 @@ def _apply_unit(repo: str, header: str, body_lines: List[str], tpl_name: str) ->
             info.rewrites.append(("signature: " + arg + " ==> " + lines[0], n))
             sig = sig2
     for kind, arg, lines in sections:
+        if kind == "rwin":
+            ms = rt.find_matches(body, arg)
+            n_total = 0
+            for m in sorted(ms, key=lambda m: -m.start):
+                cap = m.caps.get("in")
+                if cap is None:
+                    raise ExtractError("%s: rwin pattern has no $in capture: %s" % (uid, arg))
+                new_cap, n = rt.rewrite(cap, lines[0], lines[1])
+                n_total += n
+                seg = body[m.start:m.end]
+                k = seg.find(cap)
+                if k >= 0 and n:
+                    body = body[:m.start] + seg[:k] + new_cap + seg[k + len(cap):] + body[m.end:]
+            info.rewrites.append(("inside `" + arg + "`: " + lines[0] + " ==> " + lines[1], n_total))
+            continue
         if kind in ("rw", "rw?"):
             whole = sig + "\x01" + body
             whole2, n = rt.rewrite(whole, arg, lines[0])
